@@ -21,6 +21,7 @@ FINDING_DEV = {
     "KF-C02-10": "Xlsx!UnnamedHeaderPlaceholder",
     "KF-C02-11": "Odt!TextboxParagraphsGlued",
     "KF-C02-12": "Ppt!RawFallback",
+    "KF-C02-13": "Rtf!RawNewlineIsText",
 }
 
 
@@ -59,6 +60,128 @@ def docx_walk_model(ctx, traces):
     ctx.ev.replayed(len(docx))
 
 
+# ----------------------------------------------------------------------------- RTF body stripper: token-level model
+_RTF_TOKEN = {"SP": " ", "LF": "\n", "CR": "\r", "PAR": "\\par", "LINE": "\\line", "TAB": "\\tab", "PAGE": "\\page",
+              "SBK": "\\sbkpage", "CW": "\\b", "CWN": "\\fs24", "CWNEG": "\\li-120", "HEX": "\\'e9", "UNI": "\\u233?",
+              "ESCB": "\\{", "OPEN": "{", "OPENCW": "{\\b", "OPENSTAR": "{\\*\\xdest", "OPENNAMED": "{\\pict", "CLOSE": "}"}
+_RTF_CONTROL = {"PAR", "LINE", "TAB", "PAGE", "SBK", "CW", "CWN", "CWNEG", "OPENCW", "OPENSTAR", "OPENNAMED"}
+
+
+def _rtf_render(toks):
+    """Token stream -> RTF source text.  A control word is followed by its delimiter blank, except (every second time)
+    where the next token starts with a backslash or a brace and the blank is optional."""
+    from ..docmodel import word
+    out = []
+    for j, (k, n) in enumerate(toks):
+        if k == "W":
+            out.append(word(n))
+            continue
+        out.append(_RTF_TOKEN[k])
+        if k in _RTF_CONTROL:
+            nxt = toks[j + 1][0] if j + 1 < len(toks) else None
+            optional = nxt is not None and nxt not in ("W", "SP", "LF", "CR")
+            if not (optional and j % 2 == 0):
+                out.append(" ")
+    return "".join(out)
+
+
+def _rtf_atoms(text):
+    from ..docmodel import TOKEN_RE
+    out, i = [], 0
+    while i < len(text):
+        m = TOKEN_RE.match(text, i)
+        if m:
+            out.append(["w", int(m.group(1) or m.group(2) or m.group(3))])
+            i = m.end()
+        elif text[i].isspace():
+            j = i
+            while j < len(text) and text[j].isspace():
+                j += 1
+            out.append(["n", 0] if "\n" in text[i:j] else ["s", 0])
+            i = j
+        else:
+            out.append(["c", {"\u00e9": 1, "{": 2}.get(text[i], 1000 + ord(text[i]) % 1000)])
+            i += 1
+    return out
+
+
+def _rtf_strip_job(streams):
+    from ..repo import activate
+    activate()
+    import warnings
+    warnings.simplefilter("ignore")
+    from sharepoint2text.parsing.extractors.ms_legacy import rtf_extractor as mod
+    cls = getattr(mod, "_RtfParser", None)
+    if cls is None or not hasattr(cls, "_strip_rtf_full_with_pages"):
+        return {"skip": "rtf_extractor._RtfParser._strip_rtf_full_with_pages not found"}
+    out = []
+    for toks in streams:
+        src = _rtf_render(toks)
+        try:
+            p = cls(b"")
+            res = p._strip_rtf_full_with_pages(src)
+            out.append({"src": src, "result": _rtf_atoms(res), "pages": [_rtf_atoms(x) for x in p.pages]})
+        except Exception as e:
+            out.append({"src": src, "exc": f"{type(e).__name__}: {e}"[:200]})
+    return {"obs": out}
+
+
+def rtf_strip_model(ctx):
+    """RtfStrip.tla: TLC theorems on the token-stream universe, sensitivity runs for the two named deviations, and the
+    binding: the real stripper's result and pages equal the model's for every stream of the universe."""
+    from concurrent.futures import ProcessPoolExecutor
+    from ..docrun import from_tla
+    from ..docsuite import validate_with_findings
+    from ..tlaval import iter_dump, to_tla
+    from ..tlc import MachineryError, run_tlc
+    rich = "TRUE" if ctx.thorough else "FALSE"
+    invs = "".join(f"INVARIANT {i}\n" for i in ("Inv_StepAgreesWithFunction", "Inv_HiddenNeverShown", "Inv_VisibleOnceInOrder",
+                                                  "Inv_SeparatorsFaithful", "Inv_PagesPartition"))
+    cfg = f"SPECIFICATION Spec\nCONSTANTS WalkDev = {{}}\n Rich = {rich}\n{invs}PROPERTY Prop_Terminates\n"
+    r = run_tlc("RtfStrip", cfg, scratch=ctx.scratch, expect_fail=True, heap="8g", workers=16, timeout=3000)
+    ctx.ev.tlc("RtfStrip: hidden destinations never shown, visible words once and in order, separators faithful, pages partition", r)
+    if r.violated:
+        ctx.v.violation(what=f"RtfStrip.tla: the strict stripper model violates {r.violated}", observed=r.output[-1500:])
+    for dv in ("Rtf!NestedDestinationEndsSkip", "Rtf!RawNewlineIsText"):
+        rs = run_tlc("RtfStrip", cfg.replace("WalkDev = {}", f'WalkDev = {{"{dv}"}}').replace(f"Rich = {rich}", "Rich = FALSE"),
+                     scratch=ctx.scratch, expect_fail=True, heap="8g")
+        ctx.ev.tlc(f"RtfStrip sensitivity: step {dv} must violate a theorem", rs, note="expected violation")
+        if not rs.violated:
+            raise MachineryError(f"RtfStrip sensitivity run for {dv} did not fail")
+    dump = ctx.scratch / "rtfgen.dump"
+    rg = run_tlc("RtfStrip", f"SPECIFICATION GenSpec\nCONSTANTS WalkDev = {{}}\n Rich = {rich}\n", scratch=ctx.scratch, dump=dump, heap="8g")
+    ctx.ev.tlc("RtfStrip GenSpec: token streams", rg)
+    streams = sorted((from_tla(st["toks"]) for st in iter_dump(dump)), key=lambda g: json.dumps(g))
+    if len(streams) != rg.distinct:
+        raise MachineryError(f"RtfStrip dump {len(streams)} != {rg.distinct}")
+    streams = [s_ for s_ in streams if s_]
+    chunks = [streams[k:k + 1500] for k in range(0, len(streams), 1500)]
+    with ProcessPoolExecutor(16) as ex:
+        obs = list(ex.map(_rtf_strip_job, chunks))
+    traces = []
+    for ch, o in zip(chunks, obs):
+        if "skip" in o:
+            ctx.log("rtf-strip binding skipped: " + o["skip"])
+            return
+        for toks, ob in zip(ch, o["obs"]):
+            if "exc" in ob:
+                ctx.v.violation(what=f"the RTF stripper raised on a generated token stream: {ob['exc']}; source {ob['src']!r}",
+                                case={"toks": toks}, where="rtf_extractor.py:_strip_rtf_full_with_pages")
+                continue
+            traces.append({"id": f"rtfstrip:{len(traces)}", "hdr": {"fmt": "rtf", "doc": {"src": ob["src"]}}, "raw": ob["src"][:200],
+                           "ev": [{"a": "Strip", "toks": toks, "result": ob["result"], "pages": ob["pages"]}]})
+
+    def cfgfn(dev):
+        return f"SPECIFICATION TraceSpec\nCONSTANTS WalkDev = {to_tla(set(dev))}\nCONSTRAINT TraceAccept\n"
+    validate_with_findings(ctx, "RtfStripTrace", traces, {"KF-C02-13": "Rtf!RawNewlineIsText"},
+                           lambda t, e: f"RTF body stripper differs from the model RtfStrip.tla: source {t['raw']!r} -> result "
+                                        f"{json.dumps(e['result'])[:200]} pages {json.dumps(e['pages'])[:200]}",
+                           lambda t: "rtf_extractor.py:_RtfParser._strip_rtf_full_with_pages", cfg=cfgfn)
+    ctx.ev.replayed(len(traces))
+    for t in traces[:: max(1, len(traces) // 300)]:
+        ctx.ev.nontrivial(("rtfstrip", t["raw"]))
+
+
 def run(ctx):
     ev = ctx.ev
     rng = random.Random(ctx.seed)
@@ -81,6 +204,7 @@ def run(ctx):
                            lambda t: f"{t['hdr']['fmt']} extractor text walk")
     ev.replayed(len(traces))
     docx_walk_model(ctx, traces)
+    rtf_strip_model(ctx)
     ev.set(rule="document shapes enumerated by TLC (DocGen: all 1-block flow documents, 2-block documents "
                 + ("all" if ctx.thorough else "seeded sample") + "; DocGen2: decks, workbooks, paged documents up to 3 units) "
                 "x every format that can express them; non-trivial = distinct (format, document) with at least one "
